@@ -123,9 +123,13 @@ TABLE = {
     '_value': ('t: str', "len(t) <= 4 and all(c in '0123456789 ,.%-:/' for c in t)", 't'),
     '_parse_date_obj': ('t: str', "len(t) <= 3 and all(c in '0123456789-/a' for c in t)", 't'),
     '_parse_date_formats': ('d: int', '1 <= d <= 28', "'%02d/01/2024' % d, '%d/%m/%Y'"),
+    '_value_parts': ('d1: int, si: int, d2: int, w: int', '0 <= d1 <= 12 and 0 <= si < 10 and 0 <= d2 <= 3 and 0 <= w <= 2', None),
     'EmptyCell': ('x: Union[int, str, bool, None], op: int', '(not isinstance(x, str) or len(x) <= 2) and 0 <= op < 6', None),
 }
 SPECIAL = {
+    '_value_parts': ("from crosshair import realize\n"
+                     "t = ['', ' ', '-'][realize(w)] + str(realize(d1)) + [' ', ',', '.', '%', '-', ':', '/', chr(160), '', ' %'][realize(si)] + ['0', '5', '34', '234'][realize(d2)]\n"
+                     "return both('_value', t) and both('_value', t + '%')"),
     '_vlookup_default': "return same(outcome(lambda: G._vlookup(v, [[k, k + 100] for k in keys], 2)), outcome(lambda: B._vlookup(v, [[k, k + 100] for k in keys], 2)))",
     '_date_str': "return both('_date', y, 1, 1) and both('_date', 2024, y, 1) and both('_date', 2024, 1, y)",
     '_datedif': "return both('_datedif', datetime.datetime(2023, m1, d1), datetime.datetime(2024, m2, d2), ['Y', 'M', 'D', 'MD', 'YM', 'YD', 'X'][u])",
@@ -133,7 +137,7 @@ SPECIAL = {
     'EmptyCell': ("o = ['__lt__', '__le__', '__gt__', '__ge__', '__eq__', '__ne__'][op]\n"
                   "return same(outcome(lambda: getattr(KG.EmptyCell(), o)(x)), outcome(lambda: getattr(KB.EmptyCell(), o)(x)))"),
 }
-HELPER_OF = {'_vlookup_default': '_vlookup', '_date_str': '_date'}
+HELPER_OF = {'_vlookup_default': '_vlookup', '_date_str': '_date', '_value_parts': '_value'}
 
 
 def members(src, clsname):
